@@ -12,9 +12,11 @@
    whose snapshot contains i, every instance j of that snapshot whose configuration lists i's process name
    among its dependencies has no command alive.  ([C12_declarative] spells this out position by position.)
 
-   What is proved.  [C12_main_partial]: every accepted history satisfies the monitor, provided
-     (W)  the history did not go through the check-then-act windows commit (F20/F21) or sdlag (F37)
-          ([W_C12] = w_commit || w_sdlag; the other five window flags are NOT needed),
+   What is proved (hardened model: staged instance creation, probe results only after the first launch).
+   [C12_workers] (the statement the check judges histories with) and [C12_main_partial]: every accepted history
+   satisfies the monitor, provided
+     (W)  the history did not go through the check-then-act window commit (F20/F21)
+          ([W_C12] = w_commit; the other six window flags, sdlag included, are NOT needed),
      (S)  [c12_side]: every stop execution that concluded "Pending" (stop_pending) was about an instance whose
           command had never been launched and did not run on that instance's own goroutine
           (decidable, evaluated on the history; it fails only inside the dup/zombie anomalies F25/F38),
@@ -25,8 +27,9 @@
    dependent that was registered when the shutdown began is alive".
    [C12_refuted]: without (N) the statement is FALSE of the model (and of the code): StopProcess(p) that read
    the registry before ShutDownProject took the lock signals p while its dependents are alive, outside every
-   window.  [C12_commit_needed], [C12_sdlag_needed]: each flag of (W) is needed (the monitor, even restricted
-   to workers, fails on an accepted history that sets only that flag).
+   window.  [C12_commit_needed]: (W) is needed (the monitor, even restricted to workers, fails on an accepted
+   history that sets only w_commit).  [C12_sdlag_witness_rejected]: the history that made w_sdlag necessary
+   before the hardening is rejected by the model.
    [C12_worker_waits]: a worker passes ordered_go(i) only when every dependent of i in the snapshot has
    completed (the guard of the model; liveness - "the shutdown still completes" - is not proved here). *)
 From Coq Require Import List ZArith NArith Bool.
@@ -82,19 +85,20 @@ Theorem C12_refuted : exists cs ord evs s,
 Proof. exact C12_refuted_thm. Qed.
 Print Assumptions C12_refuted.
 
-(* each window flag of W_C12 is needed: an accepted history that sets ONLY that flag (index in windows_of:
-   1 = sdlag, 2 = commit), satisfies (S) and (N), and on which the monitor fails *)
+(* the window flag of W_C12 is needed: an accepted history that sets ONLY w_commit (index 2 in windows_of),
+   satisfies (S) and (N), and on which the monitor fails *)
 Theorem C12_commit_needed : exists cs evs s,
   accept (init cs true) evs = Some s /\ holds_C12 true cs evs = false /\ holds_C12w true cs evs = false /\
   only_flag 2 (final_obs cs evs) = true /\ c12_side cs evs = true /\ c12_noforeign cs evs = true.
 Proof. exact C12_commit_needed_thm. Qed.
 Print Assumptions C12_commit_needed.
 
-Theorem C12_sdlag_needed : exists cs evs s,
-  accept (init cs true) evs = Some s /\ holds_C12 true cs evs = false /\ holds_C12w true cs evs = false /\
-  only_flag 1 (final_obs cs evs) = true /\ c12_side cs evs = true /\ c12_noforeign cs evs = true.
-Proof. exact C12_sdlag_needed_thm. Qed.
-Print Assumptions C12_sdlag_needed.
+(* the former witness for "window sdlag is needed" (an internal stop after a fatal probe result finds a never-launched
+   instance Pending) is no longer a history of the model: probe results exist only after the first launch *)
+Example C12_sdlag_witness_rejected :
+  accept (init ex_cs true) ex_sdlag = None /\ fst (accept_prefix (init ex_cs true) ex_sdlag 0) = 21%nat /\
+  nth_error ex_sdlag 21 = Some (500%N, EProbe 12%N false true).
+Proof. exact ex_sdlag_rejected. Qed.
 
 (* non-vacuity: a 46-event accepted history (Run of two processes, 2 depends on 1; ordered shutdown stops 2,
    waits for its completion, then stops 1) on which all hypotheses hold and the monitor is exercised twice *)
